@@ -3,6 +3,8 @@ package dyndrv
 import (
 	"fmt"
 	"math/rand"
+	"path/filepath"
+	"sort"
 
 	"verif/harness/lib/hx"
 )
@@ -50,7 +52,7 @@ func Main(prop string, c02, c11 bool, corpus []*Input, prof func(o *hx.Opts) Pro
 	}
 	rng := o.Rng()
 	res := hx.NewResult(prop, "histories of 2..7 reconciliations on the real Instance (1-3 backends, 0-2 TLS hosts; endpoint add/remove/replace/readiness/weight/reorder/no-op, naming modes, slots-min-free, slots-increment, cookies, blue/green labels, resolver, non-endpoint changes, full syncs, scripted socket faults), each step is one evaluation; non-trivial = the step re-created an existing backend or host; distinct by canonical text of the history prefix")
-	cw := hx.NewCaseWriter(o, res, caseImport, "step_case", 250)
+	cw := hx.NewCaseWriter(o, res, caseImport, "step_case", 100)
 	var inputs []*Input
 	if o.Replay != "" {
 		in := &Input{}
@@ -58,6 +60,14 @@ func Main(prop string, c02, c11 bool, corpus []*Input, prof func(o *hx.Opts) Pro
 		inputs = append(inputs, in)
 	} else {
 		inputs = append(inputs, corpus...)
+		// minimised past failures kept as files (corpus/<property>/*.json, same format as a replay)
+		files, _ := filepath.Glob(filepath.Join("..", "corpus", prop, "*.json"))
+		sort.Strings(files)
+		for _, f := range files {
+			in := &Input{}
+			hx.ReadReplay(f, in)
+			inputs = append(inputs, in)
+		}
 		p := prof(o)
 		n := o.Count(quick, thorough)
 		for i := 0; i < n; i++ {
